@@ -309,9 +309,10 @@ func init() {
 		LevelNote:   "Interleavings are the Go scheduler's (GOMAXPROCS 2/4/16, injected Gosched), sampled not enumerated. GLINE stays out of the concurrent stream (lock-order inversion with ThrottleUntil/ExpireSessions can deadlock: a liveness defect, not a race); while a restore runs nothing reads the output stream (Restore closes it under readers, which is a crash, not a race). Replays re-run the shard seed (best effort).",
 		Technique:   "randomised concurrent stress generation with the Go race detector as oracle",
 		DesignRef:   "4/C20",
-		Rule:        "case = group of 3-10 generated operation streams (3-14 operations each) against a fresh node; non-trivial = a read-side stream (long-poll, status page, direct call) ran while a POST was being applied; distinct = hash of the group; labels count groups per stream kind",
+		Rule:        "case = group of 3-10 generated operation streams (3-14 operations each) against a fresh node; non-trivial = a read-side stream (long-poll, status page, direct call) ran while a POST was being applied; distinct = hash of the group; labels count groups per stream kind. Operator groups: one operator stream (GLINE, MODE, TOPIC, ...) beside configuration readers. Unit output: group = one writer (Add / Delete oldest-first) beside 1-4 readers (Get, GetNext with deadline, LastSeen) and an interrupter on an output stream of which 8-1600 batches were read into the cache before (its limit is 1000); non-trivial = the cache is at its limit and >=2 readers run",
 		Assumptions: []string{"only combinations the running system really executes concurrently are generated"},
-		Units:       []unit{{Name: "race", Pkg: ".", Harness: "main", Mode: "race", Run: "^TestVerifC20$", Quick: 480, Thorough: 9600, QuickTimeoutS: 900, ThoroughTimeoutS: 3400}},
+		Units: []unit{{Name: "race", Pkg: ".", Harness: "main", Mode: "race", Run: "^TestVerifC20$", Quick: 480, Thorough: 9600, QuickTimeoutS: 900, ThoroughTimeoutS: 3400},
+			{Name: "output", Pkg: "internal/outputstream", Harness: "outputstream", Mode: "race", Run: "^TestVerifC20Output$", Quick: 160, Thorough: 3200, QuickTimeoutS: 900, ThoroughTimeoutS: 3400}},
 	})
 }
 
